@@ -225,6 +225,11 @@ def gen_routine(rng, break_io=None):
     bio_block = rng.below(nblocks) if break_io is not None else -1
     for bl in range(nblocks):
         if bl == bio_block:
+            # stores next to the port (never touching it) first: only a write to the port itself ends the run
+            for _ in range(rng.below(4)):
+                nb = rng.pick([(-1, ".b"), (1, ".b"), (-2, ".w"), (2, ".w"), (-2, ".b"), (3, ".b")])
+                if break_io[0] + nb[0] >= 0:
+                    lines.append("  mov%s #%d, &0x%04x" % (nb[1], rng.range(1, 255), break_io[0] + nb[0]))
             lines.append("  mov.b #%d, &0x%04x" % (break_io[1], break_io[0]))
         if rng.chance(1, 3):
             lines.append("  mov.w #%d, r12" % rng.range(1, 6))
